@@ -499,8 +499,10 @@ class _TotalJacInfo(object):
             self.J_final = self.J_dict = self._get_dict_J(J, wrt_metadata, of_metadata,
                                                           return_format)
         
-        # Store which VOIs require unit scaling if we're computing an optimization jacobian.
-        if not has_custom_derivs:
+        # Store which VOIs require unit scaling.  The scalers are looked up by name, so this also
+        # holds when only some of the driver's variables are requested (their driver scaling
+        # is applied in that case as well).
+        if not (has_custom_derivs and _functional):
             self._identify_unit_active_vars()
 
         # Apply explicit unit conversions requested by the functional API.
